@@ -1349,6 +1349,16 @@ fn x_cases() -> Vec<(&'static str, f64)> {
         ("SUM(Sheet2!A:A,Sheet2!B:B,1)", 64.0),
         ("SUM(Sheet2!A:A)+MAX(Sheet2!12:12)", 47.0),
         ("IF(COUNT(Sheet2!A:A)=4,SUM(Sheet2!B:B),0)", 48.0),
+        ("SUM(Wide!1:1)", 21.0),
+        ("SUM(Wide!1:2)", 31.0),
+        ("SUM(Wide!2:2)", 10.0),
+        ("COUNT(Wide!1:1)", 6.0),
+        ("MAX(Wide!1:1)", 6.0),
+        ("MIN(Wide!1:2)", 1.0),
+        ("AVERAGE(Wide!1:1)", 3.5),
+        ("SUM(Wide!A:F)", 31.0),
+        ("SUM(Wide!F:F)", 6.0),
+        ("SUM(Wide!A1:F2)", 31.0),
     ]
 }
 
@@ -1358,20 +1368,29 @@ fn x_judge(formula: &str, want: f64) -> Vec<Disagreement> {
     let r = crate::env::guarded(|| -> Result<Vec<(String, String)>, String> {
         let mut out = vec![];
         // the formula lives on Sheet1 (one used row) and, second variant, on a third sheet with no cells but the formula
-        for host in [0u32, 2u32] {
+        let hosts: Vec<u32> = if formula.contains("Wide!") { vec![0, 2, 3] } else { vec![0, 2] };
+        for host in hosts {
             let mut m = Model::new_empty("c06x", "en", "UTC", "en")?;
             m.add_sheet("Sheet2")?;
             m.add_sheet("Sheet3")?;
+            m.add_sheet("Wide")?;
             for (r, c, v) in X_DATA {
                 m.set_user_input(1, r, c, v.to_string())?;
             }
+            // a sheet that is wider than it is tall: A1..F1 = 1..6, A2 = 10
+            for c in 1..=6 {
+                m.set_user_input(3, 1, c, format!("{}", c))?;
+            }
+            m.set_user_input(3, 2, 1, "10".to_string())?;
             m.set_user_input(0, 1, 1, "100".to_string())?;
-            m.set_user_input(host, 1, 3, format!("={}", formula))?;
+            // on the Wide sheet itself the formula sits below the data (row 4) and is written without the sheet prefix
+            let (hr, hc, text) = if host == 3 { (4, 9, formula.replace("Wide!", "")) } else { (1, 3, formula.to_string()) };
+            m.set_user_input(host, hr, hc, format!("={}", text))?;
             m.evaluate();
-            let got = m.get_cell_value_by_index(host, 1, 3)?;
+            let got = m.get_cell_value_by_index(host, hr, hc)?;
             let ok = matches!(got, ironcalc_base::cell::CellValue::Number(n) if (n - want).abs() <= 1e-9 * want.abs().max(1.0));
             if !ok {
-                out.push((if host == 0 { "host=sheet-with-few-rows".to_string() } else { "host=empty-sheet".to_string() }, format!("{:?}", got)));
+                out.push((match host { 0 => "host=sheet-with-few-rows".to_string(), 2 => "host=empty-sheet".to_string(), _ => "host=same-sheet".to_string() }, format!("{:?}", got)));
             }
         }
         Ok(out)
